@@ -29,7 +29,7 @@ theorem good_real : Good Z (PReal Z) where
 theorem good_leaf : Good Z (PLeaf Z) where
   mono h h1 h2 := by
     obtain ⟨t, rfl, a, b, c, d⟩ := h
-    exact ⟨t, rfl, Pos.le_trans h1 a, b, Pos.le_trans c h2, d⟩
+    exact ⟨t, rfl, Pos.le_trans h1 a, b, c.mono h2, d⟩
   item h := h.item
 
 theorem PListL.le {Q : Post} (hQ : Good Z Q) : ∀ {l : List Tree} {lo hi : Pos}, PListL Q lo hi l → lo.le hi = true
@@ -274,7 +274,8 @@ theorem Der.sepListRec {item : G} {rec : Nat} (hi : Der Γ Δ Z F item (PReal Z)
 /-- value of a tail nonterminal: `#none | #seq [op, #seq [right | #caught, tail]]` -/
 inductive PTail (Z : Pos) : Pos → Pos → Tree → Prop
   | none {lo hi : Pos} : lo.le hi = true → PTail Z lo hi Tree.none
-  | cons {lo m1 m2 hi : Pos} {op r tl : Tree} : PLeaf Z lo m1 op → POr (PReal Z) (PCaught Z) m1 m2 r → PTail Z m2 hi tl →
+  | cons {lo m1 m2 hi : Pos} {op r tl : Tree} : PLeaf Z lo m1 op → POr (PReal Z) (PCaught Z) m1 m2 r →
+      (PCaught Z m1 m2 r → Pos.lt op.rng.s op.rng.e = true ∧ op.rng.e.le m1 = true) → PTail Z m2 hi tl →
       PTail Z lo hi (Tree.seq [op, Tree.seq [r, tl]])
 
 theorem PCaught.le {lo hi : Pos} {v : Tree} (h : PCaught Z lo hi v) : lo.le hi = true := by
@@ -283,7 +284,7 @@ theorem PCaught.le {lo hi : Pos} {v : Tree} (h : PCaught Z lo hi v) : lo.le hi =
 theorem PTail.le {lo hi : Pos} {v : Tree} (h : PTail Z lo hi v) : lo.le hi = true := by
   induction h with
   | none h => exact h
-  | cons h1 h2 _ ih =>
+  | cons h1 h2 _ _ ih =>
     refine Pos.le_trans h1.item.le (Pos.le_trans ?_ ih)
     rcases h2 with h2 | h2
     · exact h2.1.le
@@ -292,7 +293,7 @@ theorem PTail.le {lo hi : Pos} {v : Tree} (h : PTail Z lo hi v) : lo.le hi = tru
 theorem PTail.mono_hi {lo hi hi' : Pos} {v : Tree} (h : PTail Z lo hi v) (h' : hi.le hi' = true) : PTail Z lo hi' v := by
   induction h with
   | none h => exact .none (Pos.le_trans h h')
-  | cons h1 h2 _ ih => exact .cons h1 h2 (ih h')
+  | cons h1 h2 h3 _ ih => exact .cons h1 h2 h3 (ih h')
 
 theorem notGroup_caught {v : Tree} (h : groupKinds.contains v.kind = false) : (v.kind == "#caught") = false := by
   cases hb : v.kind == "#caught" with
@@ -305,16 +306,21 @@ theorem binNode_real {lo mid m1 m2 : Pos} {l op r : Tree} (hl : PReal Z lo mid l
     (hr : PReal Z m1 m2 r) : PReal Z lo m2 (binNode l op r) := by
   obtain ⟨a1, a2, a3, a4, a5, _⟩ := hl.1.facts
   obtain ⟨b1, b2, b3, b4, b5, _⟩ := hr.1.facts
-  obtain ⟨t, rfl, c1, c2, c3, c4⟩ := hop
+  obtain ⟨t, rfl, c1, c2', c3', c4⟩ := hop
+  have c3 := c3'.1
   unfold binNode
   refine PReal.mk_plain (by decide) (by decide) a1 ?_ ?_ b4 (NodeOKL.cons a5 (NodeOKL.cons b5 NodeOKL.nil))
   · simp only [Range.span]; pos_arith
   · pos_arith
 
 theorem binNode_dangling {lo mid m1 m2 : Pos} {l op c : Tree} (hl : PReal Z lo mid l) (hop : PLeaf Z mid m1 op)
-    (hc : PCaught Z m1 m2 c) : PReal Z lo m2 (binNode l op (danglingRight op c)) := by
+    (hs : Pos.lt op.rng.s op.rng.e = true ∧ op.rng.e.le m1 = true) (hc : PCaught Z m1 m2 c) :
+    PReal Z lo m2 (binNode l op (danglingRight op c)) := by
   obtain ⟨a1, a2, a3, a4, a5, _⟩ := hl.1.facts
-  obtain ⟨t, rfl, c1, c2, c3, c4⟩ := hop
+  obtain ⟨t, rfl, c1, c2', c3', c4⟩ := hop
+  have c2 : Pos.lt t.rng.s t.rng.e = true := hs.1
+  have c3 : t.rng.e.le m1 = true := hs.2
+  clear c2' c3'
   obtain ⟨r, a, rfl, d1, d2⟩ := hc
   have hline : t.rng.s.line ≤ Z.line := by
     have := Pos.le_line (Pos.lt_le c2); omega
@@ -344,7 +350,7 @@ theorem foldBin_real : ∀ (n : Nat) {lo mid hi : Pos} {l tl : Tree}, PReal Z lo
   | n+1, _, _, _, _, _, hl, ht => by
     cases ht with
     | none h => simp only [foldBin, isNone_none, if_true]; exact good_real.mono hl (Pos.le_refl _) h
-    | cons hop hr htl =>
+    | cons hop hr hst htl =>
       simp only [foldBin, isNone_seq]
       shape_simp
       rcases hr with hr | hr
@@ -355,7 +361,7 @@ theorem foldBin_real : ∀ (n : Nat) {lo mid hi : Pos} {l tl : Tree}, PReal Z lo
           rintro a b c ⟨r, a, rfl, _⟩; show ("#caught" == "#caught") = true; decide
         simp only [hk hr]
         shape_simp
-        exact foldBin_real n (binNode_dangling hl hop hr) htl
+        exact foldBin_real n (binNode_dangling hl hop (hst hr) hr) htl
 
 theorem Der.binOps {operand : G} {tail : Nat} (ho : Der Γ Δ Z F operand (PReal Z)) (ht : Der Γ Δ Z F (.ref tail) (PTail Z)) :
     Der Γ Δ Z F (Gram.binOps operand tail) (PReal Z) := by
@@ -365,18 +371,40 @@ theorem Der.binOps {operand : G} {tail : Nat} (ho : Der Γ Δ Z F operand (PReal
   shape_simp
   exact foldBin_real _ hl (htl.mono_hi hend)
 
-theorem Der.binTail {op operand : G} {self : Nat} (hop : Der Γ Δ Z F op (PLeaf Z))
+theorem Der.binTail {op operand : G} {self : Nat} (hop : Der Γ Δ Z F op (PLeafS Z))
     (ho : Der Γ Δ Z F operand (POr (PReal Z) (PCaught Z))) (ht : Der Γ Δ Z F (.ref self) (PTail Z)) :
     Der Γ Δ Z F (Gram.binTail op operand self) (PTail Z) := by
   unfold Gram.binTail
   refine Der.alt ((Der.seq hop (Der.seq ho ht)).weaken ?_) ((Der.eps _).weaken (fun _ _ _ h => by rw [h.1]; exact .none h.2))
   rintro lo hi v ⟨_, rfl, o, _, m1, rfl, h1, w, _, m2, rfl, ⟨_, rfl, r, _, m3, rfl, h2, tl, _, m4, rfl, h3, rfl, he1⟩, rfl, he2⟩
-  exact .cons h1 h2 ((h3.mono_hi he1).mono_hi he2)
+  exact .cons h1.1 h2 (fun _ => h1.2) ((h3.mono_hi he1).mono_hi he2)
 
 theorem Der.binTail' {op operand : G} {self : Nat} (hop : Der Γ Δ Z F op (PLeaf Z))
     (ho : Der Γ Δ Z F operand (PReal Z)) (ht : Der Γ Δ Z F (.ref self) (PTail Z)) :
-    Der Γ Δ Z F (Gram.binTail op operand self) (PTail Z) :=
-  Der.binTail hop (ho.weaken (fun _ _ _ h => Or.inl h)) ht
+    Der Γ Δ Z F (Gram.binTail op operand self) (PTail Z) := by
+  unfold Gram.binTail
+  refine Der.alt ((Der.seq hop (Der.seq ho ht)).weaken ?_) ((Der.eps _).weaken (fun _ _ _ h => by rw [h.1]; exact .none h.2))
+  rintro lo hi v ⟨_, rfl, o, _, m1, rfl, h1, w, _, m2, rfl, ⟨_, rfl, r, _, m3, rfl, h2, tl, _, m4, rfl, h3, rfl, he1⟩, rfl, he2⟩
+  refine .cons h1 (Or.inl h2) ?_ ((h3.mono_hi he1).mono_hi he2)
+  rintro ⟨rr, a, rfl, _⟩
+  have : groupKinds.contains "#caught" = false := h2.1.2.2.2
+  exact absurd this (by decide)
+
+theorem Der.toksS : ∀ ks : List Kind, (∀ k ∈ ks, strictKinds.contains k = true ∧ looseKinds.contains k = false) →
+    Der Γ Δ Z F (Gram.toks ks) (PLeafS Z)
+  | [], _ => Der.altL_nil
+  | [k], h => Der.tokS k (h k (List.mem_singleton.mpr rfl)).1 (h k (List.mem_singleton.mpr rfl)).2
+  | k :: k' :: rest, h =>
+    Der.alt (Der.tokS k (h k List.mem_cons_self).1 (h k List.mem_cons_self).2)
+      (Der.toksS (k' :: rest) (fun x hx => h x (List.mem_cons_of_mem _ hx)))
+
+theorem Der.toksT : ∀ ks : List Kind, (∀ k ∈ ks, looseKinds.contains k = false) → Der Γ Δ Z F (Gram.toks ks) (PLeafT Z)
+  | [], _ => Der.altL_nil
+  | [k], h => Der.tokT k (h k (List.mem_singleton.mpr rfl))
+  | k :: k' :: rest, h =>
+    Der.alt (Der.tokT k (h k List.mem_cons_self)) (Der.toksT (k' :: rest) (fun x hx => h x (List.mem_cons_of_mem _ hx)))
+
+theorem identKinds_tight : ∀ k ∈ identKinds, looseKinds.contains k = false := by decide
 
 /-! ## the common shapes of the actions -/
 
@@ -482,7 +510,7 @@ theorem r_oqlExpr : Der Γ Δ Z F (.ref nOqlExpr) (PReal Z) := hc.1 nOqlExpr
 
 omit hc in
 theorem d_gIdentifier : Der Γ Δ Z F gIdentifier (PTight Z) :=
-  Der.map (Der.toks _) (fun _ _ _ h => ⟨terminal_real h.item, by obtain ⟨t, rfl, _, _, h, _⟩ := h; exact h⟩)
+  Der.map (Der.toksT _ identKinds_tight) (fun _ _ _ h => ⟨terminal_real h.1.item, h.2⟩)
 
 omit hc in
 theorem d_gLiteralBasic : Der Γ Δ Z F gLiteralBasic (PReal Z) :=
@@ -540,7 +568,7 @@ theorem d_gDotOp : Der Γ Δ Z F gDotOp (PReal Z) := by
 theorem d_gDotOps : Der Γ Δ Z F gDotOps (PReal Z) := Der.binOps (d_gDotOp hc) (hc.1 nDotTail)
 
 theorem d_gDotTail : Der Γ Δ Z F gDotTail (PTail Z) :=
-  Der.binTail (Der.toks _) (Der.catchErr (d_gDotOp hc)) (hc.1 nDotTail)
+  Der.binTail (Der.toksS _ (by decide)) (Der.catchErr (d_gDotOp hc)) (hc.1 nDotTail)
 
 theorem d_gBracketClosure : Der Γ Δ Z F gBracketClosure (PReal Z) := by
   unfold gBracketClosure
